@@ -6,9 +6,12 @@ patch=$(readlink -f "$1"); shift
 props=${*:-all}
 cd /verif
 if ! git -C /repo diff --quiet; then echo "/repo has uncommitted changes; refusing"; exit 2; fi
-git -C /repo apply "$patch" || { echo "patch does not apply"; exit 2; }
 tmp=$(mktemp -d)
-trap 'git -C /repo checkout -- . ; git -C /repo clean -fdq; rm -rf "$tmp"' EXIT
+trap 'git -C /repo reset -q --hard HEAD; git -C /repo clean -fdq; rm -rf "$tmp"' EXIT
+# patches may have been written against an earlier HEAD of /repo: fall back to reduced context, then to a 3-way merge
+git -C /repo apply "$patch" 2>/dev/null || git -C /repo apply -C1 "$patch" 2>/dev/null || git -C /repo apply --3way "$patch" 2>/dev/null
+if git -C /repo diff --quiet && git -C /repo diff --cached --quiet; then echo "patch does not apply"; exit 2; fi
+if git -C /repo diff --name-only --diff-filter=U | grep -q .; then echo "patch conflicts with a later commit of /repo"; exit 2; fi
 for p in $props; do
   bin/wcheck -prop "$p" -tier quick -evdir "$tmp" 2>&1 | grep -E "violation|undecided|VIOLATION|KNOWN" | cut -c1-${CUT:-260}
 done
